@@ -297,8 +297,9 @@ Definition exec_op (rows : Z) (e : est) (ybuf : N) (a1 : Z) (op : okey) (a2 : Z)
       let s := vs_mot s cl cc pc in
       let g := vc_region b k (v_row s) o1 r2 o2 in
       Some (match op with
-            | Oy => finish rows b (vi_yank b R ybuf g) (vs_pos s (g_r1 g) (if g_ln g then v_off s else g_o1 g)) (negb (g_ln g))
-                    (* vi_yank returns lnmode ? 0 : VC_COL *)
+            | Oy => finish rows b (vi_yank b R ybuf g) (vs_pos s (g_r1 g) (if g_ln g then v_off s else g_o1 g))
+                           (negb (g_ln g && (v_row s =? g_r1 g)))
+                    (* vi_yank: if (lnmode && xrow == r1) return 0; ... return VC_COL *)
             | Od => let (b', R') := vi_delete b R ybuf g in
                     finish rows b' R' (vs_pos s (g_r1 g) (if g_ln g then lbuf_indents b' (g_r1 g) else g_o1 g)) true
             | Oc => vi_change rows b R s ybuf g typed
